@@ -24,6 +24,7 @@
 #include "common.h"
 
 static int32_t g_forceSkeAlg; /* 0 = honest choice */
+static int g_lastComplete;     /* client completed in the last run() */
 extern int32_t __real_chooseSkeSigAlg(ssl_t *ssl, sslIdentity_t *id);
 int32_t __wrap_chooseSkeSigAlg(ssl_t *ssl, sslIdentity_t *id)
 {
@@ -172,8 +173,12 @@ static int run(const char *label, int32_t forceAlg, uint16_t wireAlg)
     onWire = skeSigAlgOnWire(out, len);
     pump(&cli, &svr);
 
-    bad = cli.complete && matrixSslHandshakeIsComplete(cli.ssl) &&
-        !wasOffered && onWire == wireAlg;
+    g_lastComplete = cli.complete && matrixSslHandshakeIsComplete(cli.ssl);
+    bad = g_lastComplete && !wasOffered && onWire == wireAlg;
+    if (onWire != wireAlg)
+    {
+        bad = -3; /* harness problem: the adversary did not sign as asked */
+    }
     printf("    ServerKeyExchange on the wire is signed with %04x (offered by "
         "the client: %s); client: complete=%d alert-sent-to-peer=%d\n",
         onWire, wasOffered ? "yes" : "NO", cli.complete, svr.alertDesc);
@@ -195,10 +200,14 @@ int main(void)
         return 2;
     }
     r = run("honest server (contrast)", 0, sigalg_ecdsa_secp256r1_sha256);
-    if (r != 0)
+    if (r != 0 || !g_lastComplete)
     {
-        printf("unexpected: baseline %d\n", r);
+        printf("CONTROL FAILED: honest TLS 1.2 ECDHE_ECDSA handshake did not "
+            "complete (%d)\n", r);
+        return 3;
     }
+    printf("CONTROL OK: honest handshake with an offered algorithm "
+        "completes\n");
     r = run("server signs with ecdsa_sha1", OID_SHA1_ECDSA_SIG,
             sigalg_ecdsa_sha1);
     if (r > 0)
@@ -208,6 +217,11 @@ int main(void)
             "ecdsa_sha1 (0203)\n");
         v++;
     }
+    else if (r == 0)
+    {
+        printf("OK: ServerKeyExchange signed with unoffered ecdsa_sha1 "
+            "refused\n");
+    }
     r = run("server signs with ecdsa_secp521r1_sha512", OID_SHA512_ECDSA_SIG,
             sigalg_ecdsa_secp521r1_sha512);
     if (r > 0)
@@ -216,6 +230,11 @@ int main(void)
             "ServerKeyExchange signed with ecdsa_sha512 (0603), which it did "
             "not offer\n");
         v++;
+    }
+    else if (r == 0)
+    {
+        printf("OK: ServerKeyExchange signed with unoffered ecdsa_sha512 "
+            "refused\n");
     }
     matrixSslClose();
     return v ? 1 : 0;
